@@ -94,7 +94,8 @@ for pid in sorted(props):
     for n in names:
         m = load(os.path.join(d, n, "meta.json"))
         cr = (m.get("confirmed_by_us") or {}).get("check_result", "") if isinstance(m.get("confirmed_by_us"), dict) else ""
-        if cr.upper().startswith("MISSED"):
+        low = cr.lower()
+        if low.startswith("missed") or "not caught" in low or "first miss" in low or "first missed" in low or "first run: exit 0" in low or "missed at first" in low:
             missed.append(n)
     caught = [n for n in names if sres.get(pid + "/" + n, {}).get("as_expected")]
     gone = [n for n in names if sres.get(pid + "/" + n, {}).get("applies") is False]
@@ -126,10 +127,13 @@ odd = []
 for k, v in sorted(hres.items()):
     if v.get("applies") and not v.get("as_expected"):
         odd.append("`%s` (%s)" % (k, " ".join("%s=%d" % (c, r["rc"]) for c, r in v.get("checks", {}).items())))
+gone_h = [k for k, v in sorted(hres.items()) if v.get("applies") is False]
+out.append("A `*_changed*` entry is judged on the property its directory names (the other properties anchored in the touched "
+           "file need not observe the changed fact).")
 if odd:
-    out.append("Entries where some check's exit code differs from the sweep's blanket expectation — for a `*_changed` patch "
-               "the sweep expects exit 1 from every property anchored in the touched file, although only the property named "
-               "in the directory observes the changed fact; those lines are not alarms: " + "; ".join(odd) + ".")
+    out.append("Not as expected: " + "; ".join(odd) + ".")
+if gone_h:
+    out.append("No longer applying to the final tree (written before later fixes to the same lines): " + ", ".join("`%s`" % g for g in gone_h) + ".")
 out.append("")
 
 # ---------------------------------------------------------------- 10.5
